@@ -2,11 +2,9 @@ pub mod engine;
 pub mod world;
 pub mod props {
     pub mod c03;
-    pub mod c04;
-    pub mod c05;
-    pub mod c06;
     pub mod c12;
     pub mod c16;
     pub mod c17;
+    pub mod c19;
     pub mod holder;
 }
